@@ -1,6 +1,7 @@
 package main
 
 import (
+	"fmt"
 	"go/ast"
 	"go/token"
 	"sort"
@@ -153,6 +154,88 @@ func genTables() {
 			return true
 		})
 		l.f("def %s : List String := %s\n\n", it.out, leanStrList(append(append(conds, assigns...), returnExprs(fd)...)))
+	}
+	// where the back-end clients derive the object name: per method, every statement that mentions
+	// the naming function or the prefix (in source order, the conditions guarding them included),
+	// and in the constructors the bodies of the naming closures
+	{
+		mention := func(src string) bool {
+			for _, w := range []string{"objectKey", "requestURL", "prefix", "baseURL"} {
+				if strings.Contains(src, w) {
+					return true
+				}
+			}
+			return false
+		}
+		var rows []string
+		for _, it := range []struct{ rel, recv string }{
+			{"cache/s3proxy/s3proxy.go", "s3Cache"},
+			{"cache/azblobproxy/azblobproxy.go", "azBlobCache"},
+			{"cache/httpproxy/httpproxy.go", "remoteHTTPProxyCache"},
+		} {
+			for _, m := range []string{"UploadFile", "Get", "Contains"} {
+				fd := findFunc(it.rel, it.recv, m)
+				if fd == nil {
+					miss("method %s.%s in %s", it.recv, m, it.rel)
+					continue
+				}
+				var sites []string
+				ast.Inspect(fd.Body, func(n ast.Node) bool {
+					switch x := n.(type) {
+					case *ast.AssignStmt:
+						if len(x.Lhs) == 1 && len(x.Rhs) == 1 {
+							src := exprStr(x.Lhs[0]) + " = " + exprStr(x.Rhs[0])
+							if mention(src) && !strings.Contains(src, "Printf") {
+								sites = append(sites, src)
+							}
+						}
+					case *ast.IfStmt:
+						if c := exprStr(x.Cond); mention(c) {
+							sites = append(sites, "if "+c)
+						}
+					case *ast.CallExpr:
+						// the naming function passed directly as an argument of a client call (not of a log call)
+						fn := exprStr(x.Fun)
+						if strings.Contains(fn, "logResponse") || strings.Contains(fn, "Printf") {
+							return false
+						}
+						for _, a := range x.Args {
+							if ce, ok := a.(*ast.CallExpr); ok && mention(exprStr(ce.Fun)) {
+								sites = append(sites, "arg "+exprStr(a))
+							}
+						}
+					}
+					return true
+				})
+				rows = append(rows, fmt.Sprintf("(%s, %s, %s)", leanStr(it.rel), leanStr(m), leanStrList(sites)))
+			}
+			// naming closures assigned in New
+			if fd := findFunc(it.rel, "", "New"); fd != nil {
+				var sites []string
+				ast.Inspect(fd.Body, func(n ast.Node) bool {
+					as, ok := n.(*ast.AssignStmt)
+					if !ok || len(as.Lhs) != 1 || len(as.Rhs) != 1 {
+						return true
+					}
+					fl, ok := as.Rhs[0].(*ast.FuncLit)
+					if !ok || !mention(exprStr(as.Lhs[0])) {
+						return true
+					}
+					var conds []string
+					ifConds(fl.Body, 0, &conds)
+					sites = append(sites, conds...)
+					ast.Inspect(fl.Body, func(m ast.Node) bool {
+						if r, ok := m.(*ast.ReturnStmt); ok && len(r.Results) == 1 {
+							sites = append(sites, exprStr(as.Lhs[0])+" returns "+exprStr(r.Results[0]))
+						}
+						return true
+					})
+					return false
+				})
+				rows = append(rows, fmt.Sprintf("(%s, %s, %s)", leanStr(it.rel), leanStr("New"), leanStrList(sites)))
+			}
+		}
+		l.f("def backend_key_sites : List (String × String × List String) := [\n  %s]\n\n", strings.Join(rows, ",\n  "))
 	}
 	// regular expressions (MustCompile literals) per file
 	for _, it := range []struct{ rel, name string }{
